@@ -89,9 +89,9 @@ type TxSpec struct {
 	// Multi: every account the messages name signs (in the order the chain requires: first
 	// appearance over the messages), the first one pays; without it only Signer (and an explicit
 	// Payer) sign, whatever the messages name
-	Multi   bool `json:"multi,omitempty"`
-	SimOnly bool `json:"sim_only,omitempty"` // only gas-simulated (/app/simulate), as a wallet does before signing; never delivered
-	Tag       string    `json:"tag,omitempty"`
+	Multi   bool   `json:"multi,omitempty"`
+	SimOnly bool   `json:"sim_only,omitempty"` // only gas-simulated (/app/simulate), as a wallet does before signing; never delivered
+	Tag     string `json:"tag,omitempty"`
 }
 
 // NodeEvent is what happens to one replica while the reference executes this block.
